@@ -1654,6 +1654,37 @@ fn run(a: &[&str]) -> String {
                 Err(_) => "err".to_string(),
             }
         }
+        "cm_compare" | "cm_get_time" => {
+            // cm_compare <stored milli> <stored minute> <precision 0 minute|1 second> <other seconds> <op 0 eq|1 lt|2 lte|3 gt|4 gte>
+            // cm_get_time <stored milli> <stored minute> <precision>
+            use radix_common::prelude::*;
+            use radix_engine::blueprints::consensus_manager::*;
+            use radix_engine_interface::blueprints::consensus_manager::*;
+            let mut api = mock_api::MockApi::default();
+            api.fields.insert(ConsensusManagerField::ProposerMilliTimestamp.field_index(), scrypto_encode(
+                &ConsensusManagerProposerMilliTimestampFieldPayload::from_latest_version(ProposerMilliTimestampSubstate { epoch_milli: a[1].parse().unwrap() })).unwrap());
+            api.fields.insert(ConsensusManagerField::ProposerMinuteTimestamp.field_index(), scrypto_encode(
+                &ConsensusManagerProposerMinuteTimestampFieldPayload::from_latest_version(ProposerMinuteTimestampSubstate { epoch_minute: a[2].parse().unwrap() })).unwrap());
+            let precision = if a[3] == "0" { TimePrecisionV2::Minute } else { TimePrecisionV2::Second };
+            if a[0] == "cm_get_time" {
+                match verif_get_current_time_v2(precision, &mut api) {
+                    Ok(i) => format!("ok {}", i.seconds_since_unix_epoch),
+                    Err(_) => "err".to_string(),
+                }
+            } else {
+                let op = match a[5] {
+                    "0" => TimeComparisonOperator::Eq,
+                    "1" => TimeComparisonOperator::Lt,
+                    "2" => TimeComparisonOperator::Lte,
+                    "3" => TimeComparisonOperator::Gt,
+                    _ => TimeComparisonOperator::Gte,
+                };
+                match verif_compare_current_time_v2(Instant::new(a[4].parse().unwrap()), precision, op, &mut api) {
+                    Ok(b) => format!("ok {}", b as u8),
+                    Err(_) => "err".to_string(),
+                }
+            }
+        }
         "auth_run" => auth_run(&a[1..]),
         "nf_vault_lock" => nf_vault_lock(&a[1..]),
         "next_round_run" => next_round_run(&a[1..]),
